@@ -9,9 +9,9 @@ package main
 // functions of their own.
 
 import (
-	"go/token"
 	"bytes"
 	"fmt"
+	"go/token"
 	"go/types"
 	"os"
 	"sort"
